@@ -810,6 +810,76 @@ func ruleC07Complement(c *Ctx) {
 			for _, y := range yields {
 				as = append(as, atomsOf(y)...)
 			}
+			// nothing else of the record decides whether an element is handed to the keyword: a condition that can
+			// skip the application and reads the record must be the flag, the element's membership, or the loop bound
+			{
+				var readsRecord func(v ssa.Value, depth int) bool
+				readsRecord = func(v ssa.Value, depth int) bool {
+					if depth == 0 || v == nil {
+						return false
+					}
+					switch x := v.(type) {
+					case *ssa.UnOp:
+						if fa, ok := x.X.(*ssa.FieldAddr); ok && x.Op == token.MUL && m.isFrameAnns(fa) {
+							return true
+						}
+						return readsRecord(x.X, depth-1)
+					case *ssa.BinOp:
+						return readsRecord(x.X, depth-1) || readsRecord(x.Y, depth-1)
+					case *ssa.Call:
+						for _, a := range x.Call.Args {
+							if readsRecord(a, depth-1) {
+								return true
+							}
+						}
+					case *ssa.Convert:
+						return readsRecord(x.X, depth-1)
+					}
+					return false
+				}
+				var extra []string
+				points := []ssa.Instruction{s.siteInstr()}
+				for _, y := range yields {
+					points = append(points, y)
+				}
+				for pk, pt := range points {
+					gs := skipGuards(pt)
+					if pk > 0 {
+						gs = controlGuards(pt) // in an iterator every way of not yielding skips the element
+					}
+					for _, g := range gs {
+						cond := g.Cond
+						switch x := cond.(type) {
+						case *ssa.UnOp:
+							if fa, ok := x.X.(*ssa.FieldAddr); ok && x.Op == token.MUL && m.isFrameAnns(fa) {
+								continue // a flag of the record
+							}
+						case *ssa.Lookup:
+							continue // membership
+						case *ssa.Extract:
+							if _, isLk := x.Tuple.(*ssa.Lookup); isLk {
+								continue
+							}
+						case *ssa.Call:
+							if callee := x.Call.StaticCallee(); callee != nil && isMembershipFn(callee) {
+								continue
+							}
+						case *ssa.BinOp:
+							if _, isPhi := x.X.(*ssa.Phi); isPhi {
+								continue // the loop bound (i < n)
+							}
+							if _, isPhi := x.Y.(*ssa.Phi); isPhi {
+								continue
+							}
+						}
+						if readsRecord(cond, 5) {
+							extra = append(extra, c.pos(g.At))
+						}
+					}
+				}
+				c.R.Check(len(extra) == 0, rule, src+":no-count-shortcut", c.pos(s.siteInstr()), "besides the flag, the membership of the element and the loop bound, nothing read from the record can skip the application",
+					fmt.Sprintf("whether %s is applied to an element also depends on another condition computed from the annotation record (at %v), e.g. a count of evaluated elements: indexes recorded twice (by prefixItems and by contains) make the count reach the length while an element is still unevaluated", src, uniq(extra)))
+			}
 			pos := c.pos(s.siteInstr())
 			c.R.Check(has(as, flag, "flag", false), rule, src+":not-all-evaluated", pos, "applied only when the merged record does not say all were evaluated (!"+flag+")",
 				"the application of "+src+" is not guarded by the negation of annotations."+flag)
